@@ -44,7 +44,13 @@ def case(draw):
             extra = [draw(st.sampled_from(FORMAT_OPTS))]
     elif kind == "neutral":
         extra = draw(st.sampled_from([["--neutraln"], ["--neutralc"], ["--neutraln", "--neutralc"]]))
-    return dict(part="opts", kind=kind, desc=desc, ff=ff, base=base, extra=extra)
+    tit = None
+    if kind == "format" and draw(st.integers(0, 2)) == 0:
+        # titration states assigned from (harness-supplied) pKa values in both runs
+        tit = dict(ph=draw(st.sampled_from([2.0, 7.0, 12.5, 13.5])),
+                   pka=[[ci, i, draw(st.integers(0, 1400)) / 100.0] for ci, ch in enumerate(desc["chains"])
+                        for i, rn in enumerate(ch["seq"]) if rn in ("ASP", "GLU", "HIS", "CYS", "TYR", "LYS", "ARG")])  # fmt: skip
+    return dict(part="opts", kind=kind, desc=desc, ff=ff, base=base, extra=extra, tit=tit)
 
 
 def _fields(ln):
@@ -57,6 +63,17 @@ def check(case):
     e2e.normalise(desc, base)
     s = build.materialise(desc)
     args0 = [f"--ff={ff}", *base]
+    if case.get("tit"):
+        from . import c06
+
+        c06.install_fake_propka()
+        c06.PKA.clear()
+        c06.TERM_ROWS.clear()
+        for ci, i, v in case["tit"]["pka"]:
+            ch = desc["chains"][ci]
+            c06.PKA[(ch["id"], ch["start"] + i)] = v
+        args0 += ["--titration-state-method=propka", f"--with-ph={case['tit']['ph']}"]
+        res.label("titration")
     r0 = pipeline.run(s.text(), args0)
     res.label(f"kind={kind}", f"ff={ff}", *[o.split("=")[0] for o in extra])
     if not r0.ok:
@@ -140,8 +157,9 @@ def check(case):
         body1 = [ln for ln in lines1 if ln["seq"] not in term_keys]
         # state (names, charge, radius) of non-terminal residues is unchanged; hydrogen positions
         # of neighbours may legitimately react to the different terminal hydrogens
-        sig0 = [(a["name"], a["resn"], a["seq"], a["qs"].strip(), a["rs"].strip()) for a in body0]
-        sig1 = [(b["name"], b["resn"], b["seq"], b["qs"].strip(), b["rs"].strip()) for b in body1]
+        # (as a multiset: a flip or a carboxyl name exchange re-orders atoms inside a residue)
+        sig0 = sorted((a["resn"], a["seq"], a["name"], a["qs"].strip(), a["rs"].strip()) for a in body0)
+        sig1 = sorted((b["resn"], b["seq"], b["name"], b["qs"].strip(), b["rs"].strip()) for b in body1)
         if sig0 != sig1:
             diff = next((x, y) for x, y in zip(sig0 + [None], sig1 + [None]) if x != y)
             res.bad("C09:neutral:non-terminal-changed", f"{extra} changed a non-terminal residue: {diff[0]} -> {diff[1]}")
